@@ -3,7 +3,7 @@
      CLess   one evaluation of legacyIDSorter.Less (through the verif hook)
      CBuild  one krusty.Run of a generated tree within the scope of Res/Compose.v: observed outcome
              class and the ids of the output documents in output order *)
-From KV Require Export Res.Compose Gen.LegacyOrder Gen.FieldSpecs.
+From KV Require Export Res.Compose Res.LabelNest Gen.LegacyOrder Gen.FieldSpecs.
 Open Scope string_scope.
 
 (* a document id as it is written in YAML: apiVersion, kind, namespace, name *)
@@ -45,11 +45,32 @@ Inductive ysort :=
 | YFifo
 | YLegacy (o : option (list string * list string)).
 
+(* trees for the label-layering model, with YAML-level ids *)
+Inductive yltree :=
+| YLFile (docs : list (ydoc * labels))
+| YLDir (ents : list yltree) (lbls : list labels) (common : labels).
+
+Fixpoint ltree_of (t : yltree) : ltree :=
+  match t with
+  | YLFile docs => LFile (map (fun dl => (rid_of (fst dl), snd dl)) docs)
+  | YLDir ents lbls common => LDir (map ltree_of ents) lbls common
+  end.
+
+Fixpoint labelled_eqb (a b : list (rid * labels)) : bool :=
+  match a, b with
+  | [], [] => true
+  | (i, l) :: a', (j, m) :: b' => rid_eqb i j && labels_eqb l m && labelled_eqb a' b'
+  | _, _ => false
+  end.
+
 Inductive case11 :=
 | CLess (o : option (list string * list string)) (a b : ydoc) (observed : bool)
 | CBuild (t : ytree) (s : ysort)
          (cs : list (string * string))     (* (apiVersion, kind) of this case's cluster-scoped types *)
-         (cls : oclass) (out : list ydoc).
+         (cls : oclass) (out : list ydoc)
+(* a successful krusty.Run of a tree in the scope of Res/LabelNest.v (no renaming, no sortOptions): the output
+   documents in order, each with its metadata.labels *)
+| CLabels (t : yltree) (out : list (ydoc * labels)).
 
 Definition oclass_eqb (a b : oclass) : bool :=
   match a, b with
@@ -106,6 +127,8 @@ Definition agree11 (c : case11) : bool :=
           end
       | r => oclass_eqb cls (class_of r)
       end
+  | CLabels t out =>
+      labelled_eqb (lflat (ltree_of t)) (map (fun dl => (rid_of (fst dl), snd dl)) out)
   end.
 
 Fixpoint mism_from {A} (agree : A -> bool) (i : N) (l : list A) : list N :=
